@@ -31,6 +31,14 @@ OPS = [
     (r" == ", " != "), (r" != ", " == "), (r" && ", " || "), (r" \|\| ", " && "),
     (r" \+ 1\b", ""), (r" - 1\b", ""), (r"\bmin\(", "max("), (r"\bmax\(", "min("),
 ]
+# extended operator set (--ops ext): negation dropped, boolean literals flipped, numeric literals
+# bumped, and whole single-line statements deleted (assignments to fields and bare method calls)
+OPS_EXT = [
+    (r"\bif !", "if "), (r"&& !", "&& "), (r"\btrue\b", "false"), (r"\bfalse\b", "true"),
+    (r"\b([2-9]|[1-9][0-9]+)\b(?![.\w])", "LIT+1"),
+    (r"^\s*(self\.)?[a-z_][a-z_0-9.]*(\[[^\]]*\])?(\.[a-z_][a-z_0-9]*)* (=|\+=|-=) [^;{}]*;\s*$", "DELETE"),
+    (r"^\s*(self\.)?[a-z_][a-z_0-9.]*\.[a-z_][a-z_0-9]*\([^;{}]*\);\s*$", "DELETE"),
+]
 ORDER = ["C13", "C16", "C14", "C18", "C15", "C10", "C07", "C06", "C17", "C11", "C12", "C08", "C09", "C05", "C04", "C01", "C03", "C02"]
 
 
@@ -79,12 +87,23 @@ def code_lines(path, root=REPO):
     return out
 
 
-def mutants(root=REPO):
+def mutants(root=REPO, ops=None):
     ms = []
+    ops = ops or OPS
     for f in FILES:
         for (ln, code) in code_lines(f, root):
-            for (pat, rep) in OPS:
+            for (pat, rep) in ops:
                 for m in re.finditer(pat, code):
+                    if rep == "DELETE":
+                        if re.match(r"\s*(let|return|break|continue)\b", code):
+                            continue
+                        ms.append({"file": f, "line": ln, "col": 0, "old": code, "new": "", "text": code.strip()})
+                        continue
+                    if rep == "LIT+1":
+                        if re.match(r"\s*(const|static)\b", code) is None and not re.search(r"(<|>|==|!=|\+|-|\*|%|/) *$", code[: m.start()]):
+                            continue
+                        ms.append({"file": f, "line": ln, "col": m.start(), "old": m.group(0), "new": str(int(m.group(0)) + 1), "text": code.strip()})
+                        continue
                     # generic brackets are not comparisons
                     if pat in (r" < ", r" > ") and not re.search(r"\b(if|while|assert|return|&&|\|\|)\b|&&|\|\|", code):
                         continue
@@ -114,9 +133,10 @@ def main():
     ap.add_argument("--suite", action="store_true", help="run the pinned suite on survivors")
     ap.add_argument("--only", default="", help="only mutants of files whose path contains this")
     ap.add_argument("--root", default="/tmp/mut")
+    ap.add_argument("--ops", default="std", choices=["std", "ext"])
     a = ap.parse_args()
     if a.cmd == "list":
-        allm = mutants()
+        allm = mutants(ops=OPS_EXT if a.ops == "ext" else OPS)
         sel = [m for i, m in enumerate(allm) if i % a.every == a.offset % a.every and (not a.only or a.only in m["file"])][: a.limit]
         for m in sel:
             print(f'{m["file"]}:{m["line"]}: [{m["old"].strip()}] -> [{m["new"].strip()}]   {m["text"][:100]}')
@@ -129,7 +149,7 @@ def main():
     sh(f"rsync -a --exclude target /verif/harness {root}/ && ln -sfn {root}/repo {root}/ggrs-src && mkdir -p {root}/out && cp /verif/known_findings.json {root}/out/")
     # the mutants are computed from the scratch worktree itself (HEAD), never from /repo's working
     # tree, which may have a seeded change applied by another job at this moment
-    allm = mutants(f"{root}/repo")
+    allm = mutants(f"{root}/repo", OPS_EXT if a.ops == "ext" else OPS)
     sel = [m for i, m in enumerate(allm) if i % a.every == a.offset % a.every and (not a.only or a.only in m["file"])][: a.limit]
     results = []
     t0 = time.time()
